@@ -1262,6 +1262,72 @@ theorem api_no_panic (a : Api) (e : String) (h : firstErr a.muxChecks = some e) 
 
 end SSV.C18
 
+namespace SSV.C18
+open SSV.Config SSV.Gen
+
+/-- the checks of `checkAddresses` are the independent statements the model mirrors (the extractor accepts no other shape) -/
+theorem gen_client_addresses : C18.clientAddressChecksIndependent = true := by decide
+
+/-- the documented address rule of a proxy client: `endpoint` alone, or `tcpAddress` / `udpAddress` with an
+    address for EVERY enabled network; nothing is required of a `direct` client -/
+structure AddressSpec (k : Client) : Prop where
+  exclusive : ¬ (k.endpoint = true ∧ (k.tcpAddr = true ∨ k.udpAddr = true))
+  some : k.endpoint = true ∨ k.tcpAddr = true ∨ k.udpAddr = true
+  tcp : k.enableTCP = true → k.endpoint = true ∨ k.tcpAddr = true
+  udp : k.enableUDP = true → k.endpoint = true ∨ k.udpAddr = true
+
+/-- `checkAddresses` decides exactly the documented rule -/
+theorem addressesOK_iff (k : Client) : k.addressesOK = true ↔ (k.proto = .direct ∨ AddressSpec k) := by
+  unfold Client.addressesOK
+  by_cases hd : k.proto = .direct
+  · simp [hd]
+  · simp only [hd, if_false, false_or]
+    constructor
+    · intro h
+      cases he : k.endpoint <;> cases ht : k.tcpAddr <;> cases hu : k.udpAddr <;>
+        cases hT : k.enableTCP <;> cases hU : k.enableUDP <;> simp_all <;>
+        exact ⟨by simp_all, by simp_all, by simp_all, by simp_all⟩
+    · intro ⟨h1, h2, h3, h4⟩
+      cases he : k.endpoint <;> cases ht : k.tcpAddr <;> cases hu : k.udpAddr <;>
+        cases hT : k.enableTCP <;> cases hU : k.enableUDP <;> simp_all
+
+/-- **accepted_sound**, client addresses: every enabled network of every accepted proxy client has an address -/
+theorem accepted_client_addresses {c : Config} {e : Eff} (h : validate c = .ok e) :
+    ∀ k ∈ effectiveClients c, k.proto ≠ .direct → AddressSpec k := by
+  intro k hk hnd
+  have acc := validate_ok h
+  have ⟨_, _, call⟩ := checkClients_ok acc.clients
+  obtain ⟨ek, _, hc⟩ := call k hk
+  have ⟨ok, _⟩ := checkClient_ok hc
+  have i := ok (!k.addressesOK, "client-address") (by simp [Client.checks])
+  have : k.addressesOK = true := by simpa using i
+  rcases (addressesOK_iff k).mp this with h1 | h1
+  · exact absurd h1 hnd
+  · exact h1
+
+/-- **violating_rejected**, client addresses: a proxy client with an enabled network that has no address is refused -/
+theorem client_address_rejected {c : Config}
+    (bad : ∃ k ∈ effectiveClients c, k.proto ≠ .direct ∧ k.endpoint = false ∧
+      ((k.enableTCP = true ∧ k.tcpAddr = false) ∨ (k.enableUDP = true ∧ k.udpAddr = false))) :
+    ∃ err, validate c = .error err := by
+  apply rejected_of_not_ok
+  intro e h
+  obtain ⟨k, hk, hnd, hep, hb⟩ := bad
+  have sp := accepted_client_addresses h k hk hnd
+  rcases hb with ⟨h1, h2⟩ | ⟨h1, h2⟩
+  · rcases sp.tcp h1 with h3 | h3 <;> simp_all
+  · rcases sp.udp h1 with h3 | h3 <;> simp_all
+
+/-- the seeded witness: both networks enabled, `tcpAddress` only -/
+def exSplitClient : Client :=
+  { name := "a", proto := .socks5, tcpAddr := true, enableTCP := true, enableUDP := true, mtu := 1500 }
+
+example : errorOf (validate { servers := [exServer], clients := [exSplitClient] }) = some "client-address" ∧
+    errorOf (validate { servers := [exServer], clients := [{ exSplitClient with udpAddr := true }] }) = none := by
+  decide
+
+end SSV.C18
+
 #print axioms SSV.C18.gen_pskLen
 #print axioms SSV.C18.gen_mtu
 #print axioms SSV.C18.gen_nat
@@ -1324,3 +1390,7 @@ end SSV.C18
 #print axioms SSV.C18.api_sound
 #print axioms SSV.C18.gen_api_guards
 #print axioms SSV.C18.api_no_panic
+#print axioms SSV.C18.gen_client_addresses
+#print axioms SSV.C18.addressesOK_iff
+#print axioms SSV.C18.accepted_client_addresses
+#print axioms SSV.C18.client_address_rejected
